@@ -14,6 +14,9 @@ import ASV.Proofs.ModulesPartition
 import ASV.Proofs.ModulesChain
 import ASV.Proofs.ModulesLayoutIdx
 import ASV.Proofs.ModulesLayoutFacts
+import ASV.Proofs.ModulesLine
+import ASV.Proofs.ModulesBlocks
+import ASV.Proofs.ModulesHmm
 namespace ASV.C14
 open ASV ASV.Modules ASV.Modules.T
 
@@ -71,6 +74,25 @@ theorem build_partition_eq (ds : List Domain) (name : String) (h : InputOK ds na
   obtain ⟨ms', hb', _, hflat, _⟩ := build_spec ds name h.1 h.2
   rw [hb] at hb'; injection hb' with hb'; subst hb'
   rw [hflat]; exact map_domain_filter name _
+
+/-- … "in query order, ties in input order" pinned down independently of the sort used by the
+    model: the sorted list is a permutation of the input, non-decreasing in query start, and any
+    sub-sequence of the input that is already in order — in particular two domains with the same
+    start — keeps its order (stability, as Python's `sorted`) -/
+theorem sort_is_stable_sort (ds : List Domain) :
+    (sortDomains ds).Perm ds
+    ∧ (sortDomains ds).Pairwise (fun a b => a.start ≤ b.start)
+    ∧ ∀ ys : List Domain, ys.Pairwise (fun a b => a.start ≤ b.start) → ys.Sublist ds →
+        ys.Sublist (sortDomains ds) := by
+  refine ⟨List.mergeSort_perm ds _, ?_, ?_⟩
+  · exact (sortDomains_sorted ds).imp (by intro a b h; simpa using h)
+  · intro ys hp hs
+    unfold sortDomains
+    apply List.sublist_mergeSort
+    · intro a b c h1 h2; simp at h1 h2 ⊢; omega
+    · intro a b; simp; omega
+    · exact hp.imp (by intro a b h; simpa using h)
+    · exact hs
 
 /-- 3. every module respects the documented layout -/
 theorem build_layout (ds : List Domain) (name : String) (h : InputOK ds name) (ms : List Module)
@@ -206,6 +228,90 @@ theorem chain_total (genes : List Gene) (h : ∀ g ∈ genes, InputOK g.domains 
   obtain ⟨r0, hr0, rfl⟩ := List.mem_map.mp hrm
   exact hg r0 hr0 m (List.mem_filter.mp hm).1
 
+/-! ### the assembly line across genes (both strands)
+
+  `generate_domains` hands the two genes to `combine_modules` in *transcription* order: for a
+  reverse-strand gene the genome-right neighbour is the upstream one (`combine_modules(prev, info)`),
+  otherwise the genome-left one (`combine_modules(info, prev)`).  `Spec.assemblyLine` reads genes
+  given in genome order along the transcription direction (maximal runs of reverse-strand genes
+  right to left).  The theorems below say that this reading is invariant under the loop, i.e. a
+  merged module always joins the trailing (C-terminal) module of the UPSTREAM gene with the leading
+  (N-terminal) module of the downstream gene — dropping or inverting the strand test falsifies
+  them (see the negative `example`s at the end of this file). -/
+
+/-- 8a. before the final single-domain filter: reading all modules of all genes in assembly-line
+    order gives exactly the genes' non-docking domains in assembly-line order — nothing moved
+    across a gene border in the wrong direction, nothing lost, nothing duplicated -/
+theorem chain_keeps_assembly_line (genes : List Gene) (h : ∀ g ∈ genes, InputOK g.domains g.name) :
+    ∃ R, chainGo genes [] false = .ok R
+      ∧ Spec.assemblyLine (R.map entry) = Spec.geneLine genes
+      ∧ R.map hdr = (genes.filter Spec.liveGene).map ghdr := by
+  obtain ⟨R, hR, _, hh, hl, _⟩ := chain_line_spec genes h
+  exact ⟨R, hR, hl, hh⟩
+
+/-- 8b. what `generate_domains` reports (modules of more than one domain, per gene): one entry per
+    gene with domains or motifs, in genome order; read in assembly-line order the reported modules
+    are a sub-sequence of the assembly line; every reported module — in particular every
+    cross-gene module — is a contiguous block of the assembly line.  `Spec.chainLineOK` is the
+    definition the driver evaluates on the implementation's output. -/
+theorem chain_reports_assembly_line (genes : List Gene) (h : ∀ g ∈ genes, InputOK g.domains g.name) :
+    ∃ out, chain genes = .ok out
+      ∧ Spec.chainLineOK genes (out.map fun r => (r.name, r.modules.map (·.components))) = true := by
+  obtain ⟨R, hR, _, _, _, hok⟩ := chain_line_spec genes h
+  unfold chain
+  rw [hR]
+  refine ⟨_, rfl, ?_⟩
+  rw [List.map_map]
+  exact hok
+
+/-- 8c. merging only between direct neighbours: with a separator put into the assembly line
+    wherever two consecutive genes with domains are *not* direct neighbours in the iteration order
+    (a gene in between, even one without domains), or lie in different regions, or on different
+    strands, the loop still keeps the line; every reported module is a contiguous, separator-free
+    block of it.  Hence a cross-gene module only ever joins the trailing module of the upstream
+    gene with the leading module of the *adjacent, same-region, same-strand* downstream gene.
+    `Consec 0 genes`: the `index` fields number the genes 0, 1, 2, … (their iteration order). -/
+theorem chain_merges_only_neighbours (genes : List Gene) (hc : Consec 0 genes)
+    (h : ∀ g ∈ genes, InputOK g.domains g.name) :
+    ∃ out, chain genes = .ok out
+      ∧ Spec.chainBlocksOK genes (out.map fun r => (r.name, r.modules.map (·.components))) = true := by
+  obtain ⟨R, hR, _, hok⟩ := chain_blocks_spec genes hc h
+  unfold chain
+  rw [hR]
+  refine ⟨_, rfl, ?_⟩
+  rw [List.map_map]
+  exact hok
+
+/-- … and before the single-domain filter the line with separators is kept exactly -/
+theorem chain_keeps_separated_line (genes : List Gene) (hc : Consec 0 genes)
+    (h : ∀ g ∈ genes, InputOK g.domains g.name) :
+    ∃ R, chainGo genes [] false = .ok R
+      ∧ Spec.chainLine (R.map itemR) = Spec.chainLine (Spec.geneItems genes) := by
+  obtain ⟨R, hR, hl, _⟩ := chain_blocks_spec genes hc h
+  exact ⟨R, hR, hl⟩
+
+/-! ### the HMMResult under a Component (hmmscan_refinement.py): nested internal hits, the
+    `detailed_names` chain the subtypes are read from, `to_json` / `from_json` -/
+
+/-- 9a. an HMMResult that could be constructed (every internal hit overlaps its parent, at every
+    depth) is rebuilt identically from its JSON form — so a reloaded Component has the same label,
+    the same subtype chain and the same coordinates -/
+theorem hmm_reload_identity (h : Hmm) (hw : h.WF = true) :
+    Hmm.fromJson h.toJson = .ok h ∧ (∀ locus, (Hmm.fromJson h.toJson).map (fun h' => mkComp locus h'.domain)
+                                          = .ok (mkComp locus h.domain)) := by
+  have := Hmm.roundtrip h hw
+  exact ⟨this, fun locus => by rw [this]; rfl⟩
+
+/-- 9b. the hypothesis of 9a is exactly "was constructed": building a tree through the real
+    constructor (children first) succeeds iff it is well formed, returns it unchanged, and the
+    only failure is the ValueError of a non-overlapping internal hit; whatever `from_json` returns
+    is well formed -/
+theorem hmm_constructed_iff_wf (raw : Hmm) :
+    (raw.WF = true → Hmm.validate raw = .ok raw)
+    ∧ (∀ h, Hmm.validate raw = .ok h → h = raw ∧ h.WF = true)
+    ∧ (∀ j h, Hmm.fromJson j = .ok h → h.WF = true) :=
+  ⟨Hmm.validate_wf raw, Hmm.validate_ok raw, Hmm.fromJson_wf⟩
+
 /-- the layout predicate read with indices: position `i` is checked against the components
     before it and after it -/
 theorem layout_by_index (cs : List Comp) : Spec.layout cs = Spec.layoutIdx cs :=
@@ -294,5 +400,68 @@ example : (match mergeModules headKS
                                    carrier := some (c "ACP" 0), end_ := some (c "Thioesterase" 10) } with
            | .ok (some m) => m.isComplete && m.isTransAt && m.isTerminated
            | _ => false) = true := by decide
+
+
+/-! ### non-vacuity for the assembly-line theorems: two adjacent reverse-strand genes,
+    genome-left `left = [ER, PP]`, genome-right (= upstream) `right = [KS, AT]` -/
+
+def cl (label : String) (start : Int) (locus : String) : Comp := ⟨label, [], start, start + 4, locus⟩
+def leftComps : List Comp := [cl "PKS_ER" 0 "left", cl "PP-binding" 5 "left"]
+def rightComps : List Comp := [cl "PKS_KS" 0 "right", cl "PKS_AT" 5 "right"]
+def modsOf (cs : List Comp) : List Module :=
+  match buildGo cs [] (Module.new true) with
+  | .ok (done, cur) => done ++ [cur]
+  | .error _ => []
+def combinedLabels (r : Except Err Combined) : List (List String) × List (List String) :=
+  match r with
+  | .ok c => (c.prev.map fun m => m.components.map (·.label), c.cur.map fun m => m.components.map (·.label))
+  | .error _ => ([], [])
+
+/-- the loop's call for a reverse-strand gene, `combine_modules(prev = left, info = right)`:
+    current = left, previous = right — the split module is merged into the upstream gene -/
+example : combinedLabels (combine (-1) (-1) (modsOf leftComps) (modsOf rightComps))
+    = ([["PKS_KS", "PKS_AT", "PKS_ER", "PP-binding"]], []) := by decide
+
+/-- the assembly line of the two genes reads right before left … -/
+example : Spec.assemblyLine [(true, leftComps), (true, rightComps)] = rightComps ++ leftComps := rfl
+
+/-- … the correct merge keeps it, and the merged module is a contiguous block of it -/
+example : (Spec.assemblyLine [(true, []), (true, rightComps ++ leftComps)]).isSublist
+            (Spec.assemblyLine [(true, leftComps), (true, rightComps)]) = true
+          ∧ Spec.isInfixB (rightComps ++ leftComps) (Spec.assemblyLine [(true, leftComps), (true, rightComps)]) = true := by
+  decide
+
+/-- negative: with the arguments the other way round (strand test dropped) and
+    `left = [KS, AT]`, `right = [PP]` the module `left ++ right` is "complete" but is not a block of
+    the assembly line `right ++ left`, and the reading is no longer a sub-sequence of it -/
+example : Spec.isInfixB ([cl "PKS_KS" 0 "left", cl "PKS_AT" 5 "left"] ++ [cl "PP-binding" 0 "right"])
+            (Spec.assemblyLine [(true, [cl "PKS_KS" 0 "left", cl "PKS_AT" 5 "left"]), (true, [cl "PP-binding" 0 "right"])]) = false
+          ∧ (Spec.assemblyLine [(true, [cl "PKS_KS" 0 "left", cl "PKS_AT" 5 "left"] ++ [cl "PP-binding" 0 "right"]), (true, [])]).isSublist
+            (Spec.assemblyLine [(true, [cl "PKS_KS" 0 "left", cl "PKS_AT" 5 "left"]), (true, [cl "PP-binding" 0 "right"])]) = false := by
+  decide
+
+
+/-! ### non-vacuity for the HMMResult theorems -/
+
+/-- a KS with the subtype chain Trans-AT-KS → KS_clade_7; a second internal hit at the deeper level
+    stops the chain -/
+def ksHit : Hmm := .mk "PKS_KS" 0 100 0 50 [.mk "Trans-AT-KS" 0 100 0 10 [.mk "KS_clade_7" 5 90 0 10 []]]
+example : ksHit.WF = true ∧ ksHit.detailedNames = ["PKS_KS", "Trans-AT-KS", "KS_clade_7"]
+    ∧ ksHit.subtypes = ["Trans-AT-KS", "KS_clade_7"] := by decide
+example : (Hmm.mk "PKS_KS" 0 100 0 50 [.mk "Trans-AT-KS" 0 100 0 10 [.mk "a" 5 90 0 10 [], .mk "b" 5 90 0 10 []]]).detailedNames
+    = ["PKS_KS", "Trans-AT-KS"] := by decide
+/-- an internal hit that only touches its parent is refused -/
+example : (match Hmm.validate (.mk "PKS_KS" 0 100 0 50 [.mk "x" 100 120 0 10 []]) with
+           | .error .valueError => true | _ => false) = true := by decide
+
+
+/-! ### non-vacuity for 8c: a gene without domains between two genes puts a separator into the line -/
+example : Spec.chainLine [⟨0, 1, 0, leftComps⟩, ⟨2, 1, 0, rightComps⟩] = leftComps ++ [Spec.sepComp] ++ rightComps := by
+  decide
+example : Spec.chainLine [⟨0, 1, 0, leftComps⟩, ⟨1, 1, 0, rightComps⟩] = leftComps ++ rightComps := by decide
+example : Spec.chainLine [⟨0, -1, 0, leftComps⟩, ⟨1, -1, 0, rightComps⟩] = rightComps ++ leftComps := by decide
+example : Spec.chainLine [⟨0, -1, 0, leftComps⟩, ⟨1, -1, 1, rightComps⟩] = leftComps ++ [Spec.sepComp] ++ rightComps := by
+  decide
+example : Consec 0 [⟨"a", 1, 0, [], false, 0⟩, ⟨"b", 1, 0, [], false, 1⟩] := ⟨rfl, rfl, trivial⟩
 
 end ASV.C14
